@@ -277,3 +277,6 @@ fn p_canary_must_fail() {
     assert!(r.is_ok(), "canary");
     forget_res(r);
 }
+
+// concrete-playback replay slot (see lib/kani_run.py: replay); empty except while a counterexample is being replayed
+include!("persist.playback.rs");
